@@ -434,13 +434,17 @@ class Node:
             return
         if conn.host_identity not in self.peers:
             return
-        peer = self.peers[conn.host_identity]
-        peer.disconnect_reason = None
-        if not peer.connection:
-            peer.connection = conn
-        if conn.ident in self._half_ready_connections:
-            del self._half_ready_connections[conn.ident]
-            peer.last_connect = int(time.time())
+        with self._busy_lock:
+            if conn.ident not in self.connections:
+                # removed by the connection thread in the meantime
+                return
+            peer = self.peers[conn.host_identity]
+            peer.disconnect_reason = None
+            if not peer.connection:
+                peer.connection = conn
+            if conn.ident in self._half_ready_connections:
+                del self._half_ready_connections[conn.ident]
+                peer.last_connect = int(time.time())
 
     def _check_timers(self, conn: PeerConnection):
         """Validate timers for a connection.
@@ -616,18 +620,22 @@ class Node:
             f"{conn} is now connected, waiting CER/CEA to complete")
 
     def _flag_connection_as_ready(self, conn: PeerConnection):
-        conn.state = PEER_READY
-        # the peer may hold another (e.g. still connecting) connection as its
-        # registered one; this connection is ready all the same
-        conn_peer = self._find_connection_peer(conn)
-        for app_peers in self._peer_routes.values():
-            for app, peers in app_peers.items():
-                if not isinstance(app, Application):
-                    continue
-                for peer in peers:
-                    if peer.connection == conn or peer is conn_peer:
-                        app.is_ready.set()
-                        break
+        with self._busy_lock:
+            if conn.ident not in self.connections:
+                # removed by the connection thread in the meantime
+                return
+            conn.state = PEER_READY
+            # the peer may hold another (e.g. still connecting) connection as
+            # its registered one; this connection is ready all the same
+            conn_peer = self._find_connection_peer(conn)
+            for app_peers in self._peer_routes.values():
+                for app, peers in app_peers.items():
+                    if not isinstance(app, Application):
+                        continue
+                    for peer in peers:
+                        if peer.connection == conn or peer is conn_peer:
+                            app.is_ready.set()
+                            break
 
     def _generate_answer(self, conn: PeerConnection, msg: _AnyMessageType) -> _AnyAnswerType:
         answer_msg = msg.to_answer()
@@ -1480,71 +1488,72 @@ class Node:
                 one of the `PEER_DISCONNECT_REASON_*` constant values.
 
         """
-        if conn.ident in self.connections:
-            del self.connections[conn.ident]
-        if conn.ident in self.peer_sockets:
-            del self.peer_sockets[conn.ident]
-        if conn.ident in self._half_ready_connections:
-            del self._half_ready_connections[conn.ident]
-        if self.socket_peers.get(conn.socket_fileno) is conn:
-            del self.socket_peers[conn.socket_fileno]
-        # a CEA may have named another configured peer as its Origin-Host, in
-        # which case that peer references this connection as well
-        for other_peer in self.peers.values():
-            if other_peer.connection is conn:
-                other_peer.connection = None
-        peer = self._find_connection_peer(conn)
-        if peer and peer.connection in (conn, None):
-            # unset so that a new connection may be made later
-            peer.connection = None
-            peer.last_disconnect = int(time.time())
-            # only set if not yet set
-            if peer.disconnect_reason is None:
-                peer.disconnect_reason = disconnect_reason
-            # the peer may hold a second established connection (it was
-            # accepted while this one existed); that one takes over
-            for other in self.connections.values():
-                if (other.host_identity == peer.node_name and
-                        other.state in PEER_READY_STATES):
-                    peer.connection = other
-                    peer.disconnect_reason = None
-                    break
+        with self._busy_lock:
+            if conn.ident in self.connections:
+                del self.connections[conn.ident]
+            if conn.ident in self.peer_sockets:
+                del self.peer_sockets[conn.ident]
+            if conn.ident in self._half_ready_connections:
+                del self._half_ready_connections[conn.ident]
+            if self.socket_peers.get(conn.socket_fileno) is conn:
+                del self.socket_peers[conn.socket_fileno]
+            # a CEA may have named another configured peer as its Origin-Host, in
+            # which case that peer references this connection as well
+            for other_peer in self.peers.values():
+                if other_peer.connection is conn:
+                    other_peer.connection = None
+            peer = self._find_connection_peer(conn)
+            if peer and peer.connection in (conn, None):
+                # unset so that a new connection may be made later
+                peer.connection = None
+                peer.last_disconnect = int(time.time())
+                # only set if not yet set
+                if peer.disconnect_reason is None:
+                    peer.disconnect_reason = disconnect_reason
+                # the peer may hold a second established connection (it was
+                # accepted while this one existed); that one takes over
+                for other in self.connections.values():
+                    if (other.host_identity == peer.node_name and
+                            other.state in PEER_READY_STATES):
+                        peer.connection = other
+                        peer.disconnect_reason = None
+                        break
 
-        # Remove pending answer tracking; we cannot know if the peer will
-        # persist its hop-by-hop IDs over reconnect.
-        if conn.ident in self._peer_waiting_answer:
-            del self._peer_waiting_answer[conn.ident]
-        # Requests received through this connection can no longer be answered
-        for message_id in list(self._origin_waiting_answer):
-            if message_id.startswith(f"{conn.ident}:"):
-                self._origin_waiting_answer.pop(message_id, None)
+            # Remove pending answer tracking; we cannot know if the peer will
+            # persist its hop-by-hop IDs over reconnect.
+            if conn.ident in self._peer_waiting_answer:
+                del self._peer_waiting_answer[conn.ident]
+            # Requests received through this connection can no longer be answered
+            for message_id in list(self._origin_waiting_answer):
+                if message_id.startswith(f"{conn.ident}:"):
+                    self._origin_waiting_answer.pop(message_id, None)
 
-        # Check if this was the last available peer for an app and clear app
-        # ready flag if so, resulting in `wait_for_ready` to block again.
-        app_list = {}
-        for app_peers in self._peer_routes.values():
-            for app, peers in app_peers.items():
-                app_list.setdefault(app, [])
-                app_list[app] += peers
+            # Check if this was the last available peer for an app and clear app
+            # ready flag if so, resulting in `wait_for_ready` to block again.
+            app_list = {}
+            for app_peers in self._peer_routes.values():
+                for app, peers in app_peers.items():
+                    app_list.setdefault(app, [])
+                    app_list[app] += peers
 
-        for app, peers in app_list.items():
-            if not isinstance(app, Application):
-                continue
-            any_peer_ready = False
-            for app_peer in peers:
-                if app_peer.connection and app_peer.connection.state in PEER_READY_STATES:
-                    any_peer_ready = True
-                    break
-            if not any_peer_ready:
-                self.logger.warning(
-                    f"{conn} was last available peer connection for {app}, "
-                    f"flagging app as not ready")
-                app.is_ready.clear()
-            else:
-                # e.g. a second connection of the peer has just taken over
-                app.is_ready.set()
+            for app, peers in app_list.items():
+                if not isinstance(app, Application):
+                    continue
+                any_peer_ready = False
+                for app_peer in peers:
+                    if app_peer.connection and app_peer.connection.state in PEER_READY_STATES:
+                        any_peer_ready = True
+                        break
+                if not any_peer_ready:
+                    self.logger.warning(
+                        f"{conn} was last available peer connection for {app}, "
+                        f"flagging app as not ready")
+                    app.is_ready.clear()
+                else:
+                    # e.g. a second connection of the peer has just taken over
+                    app.is_ready.set()
 
-        self.logger.debug(f"{conn} removed")
+            self.logger.debug(f"{conn} removed")
 
     def send_cer(self, conn: PeerConnection):
         self.logger.info(f"{conn} sending CER")
